@@ -29,6 +29,20 @@ Theorem C15_lookup_sound : forall mi ss label cls hh k,
 Proof. exact lookup_sound. Qed.
 Print Assumptions C15_lookup_sound.
 
+Theorem C15_first_module_wins : forall ms i label public hh k,
+  get_p11_key_from i ms label public hh = OK (Some k) ->
+  exists pre m post, ms = (pre ++ m :: post)%list /\
+    (forall j m', nth_error pre j = Some m' -> find_key_by_label (i + Z.of_nat j) m' label (if public then CKO_PUBLIC else CKO_PRIVATE) hh = OK None) /\
+    find_key_by_label (i + Z.of_nat (length pre)) m label (if public then CKO_PUBLIC else CKO_PRIVATE) hh = OK (Some k).
+Proof. exact get_p11_key_first_module. Qed.
+Print Assumptions C15_first_module_wins.
+
+Theorem C15_not_found_means_no_module_has_it : forall ms i label public hh,
+  get_p11_key_from i ms label public hh = OK None ->
+  forall j m', nth_error ms j = Some m' -> find_key_by_label (i + Z.of_nat j) m' label (if public then CKO_PUBLIC else CKO_PRIVATE) hh = OK None.
+Proof. exact get_p11_key_none. Qed.
+Print Assumptions C15_not_found_means_no_module_has_it.
+
 Theorem C15_sessions_only_logged_in : forall m s, In s (sessions m) <-> In s m /\ sl_login_ok s = true.
 Proof. exact sessions_only_logged_in. Qed.
 Print Assumptions C15_sessions_only_logged_in.
